@@ -229,6 +229,7 @@ class Group:
     native_tus: Optional[List[str]] = None     # TUs for the native replay build (default: tus)
     min_obligations: int = 1
     solver: Optional[str] = None               # e.g. "--sat-solver cadical"
+    assert_mode: bool = False                  # compile with -DVP_ASSERT_MODE: contract text assumed/asserted by the harness, no dfcc instrumentation
     pre_unwindset: Dict[str, int] = field(default_factory=dict)   # loops unwound by goto-instrument BEFORE dfcc (contract-less loops enclosing contracted ones)
 
 
@@ -304,6 +305,10 @@ class Runner:
         os.makedirs(gdir, exist_ok=True)
         objs = [self.snap.lib_obj(g.config, tu) for tu in g.tus]
         defs = ["-D%s=%s" % (k, v) if v is not None else "-D%s" % k for k, v in g.defines.items()]
+        if g.assert_mode:
+            defs.append("-DVP_ASSERT_MODE")
+        if g.canary:
+            defs.append("-DVP_CANARY")
         hsrc = os.path.join(VERIF, "harness", g.harness)
         gb0 = os.path.join(gdir, "h.gb")
         cmd = ["goto-cc"] + self.snap.cflags(g.config) + defs + g.extra_cflags + ["--function", g.entry, hsrc] + objs + ["-o", gb0]
@@ -313,6 +318,8 @@ class Runner:
         if rc != 0 or to:
             res.state, res.reason = "error", "goto-cc failed: " + (se or so)[-3000:]
             return None
+        if g.assert_mode:
+            g.enforce = []
         need_dfcc = g.enforce or g.enforce_rec or g.replace or g.loop_contracts
         if g.pre_unwindset:
             gbu = os.path.join(gdir, "hu.gb")
@@ -490,7 +497,7 @@ class Runner:
     def trace_inputs(self, g: Group, res: GroupResult, pid: str):
         """re-run cbmc for one failed property with --trace; returns (inputs, raw_text)"""
         cmd = self.cbmc_cmd(g, res.gb, res.unwindset, ["--trace", "--property", pid])
-        rc, so, se, dt, to = _run(cmd, timeout=g.timeout, mem_gb=g.mem_gb)
+        rc, so, se, dt, to = _run(cmd, timeout=min(g.timeout, 400), mem_gb=g.mem_gb)
         if to:
             return None, "trace run timed out"
         try:
@@ -576,3 +583,22 @@ def run_groups(runner: Runner, groups: List[Group], progress=True) -> List[Group
     with cf.ThreadPoolExecutor(max_workers=NCPU) as ex:
         list(ex.map(work, order))
     return [results[g.gid] for g in groups]
+
+
+def with_canaries(groups: List[Group]) -> List[Group]:
+    """for each (function, harness mode) add one must-fail clone of its first group (-DVP_CANARY)"""
+    import copy
+    seen = set()
+    out = list(groups)
+    for g in groups:
+        key = (g.function, g.harness, g.assert_mode)
+        if key in seen or g.canary:
+            continue
+        seen.add(key)
+        c = copy.deepcopy(g)
+        c.gid = g.gid + ".CANARY"
+        c.canary = True
+        c.canary_expect = "canary"
+        c.covers = False
+        out.append(c)
+    return out
